@@ -38,6 +38,23 @@ peer can go by: per puppet channel number, sum(adjusts naming it) <= bytes consu
 which the puppet has no channel is a grant for a channel on which nothing was consumed.  E4: the bench channel is 1 here / 7 at the
 peer; the same two clauses on the fake wire.
 
+Key exchange in progress while the senders run (round 4, snd): a quarter of the snd cases and a sub-family of its own run the
+sender threads while a key re-exchange is under way - started by the tested side (renegotiate_keys) or by the puppet - and either
+racing it or with the peer slow to take part: the tested side's KEXINIT is held on the link for 0.1 / 0.2 s, i.e. longer than the
+0.05 s channel timeout of the "timeout" mode (and than the non-blocking mode), then the exchange completes and the adjust plan
+goes on (the peer sends no WINDOW_ADJUST between its KEXINIT and NEWKEYS).  Same history invariant: whatever a sender that gave
+up or was held up during the exchange did to the books, the data on the wire stays within initial window + adjusts.
+
+Adjust in flight (round 4, e4rcv "tight" sub-family): everything the peer may send is fed first (both streams and discarded
+extended-data types - the transport task is then a consumer too), 2-3 reader tasks take amounts at/above the grant threshold, and
+the directed preemptions sit on the switch point where a WINDOW_ADJUST has left the channel but is not on the wire yet (wide open
+during a key exchange / on a slow socket): another consumer finishes while the first grant is still in flight.  Same clause
+(sum of grants <= bytes taken out of the pipes) at every hand-over.
+
+The fake transport accepts (and ignores) extra arguments of _send_user_message and shows clear_to_send (set) / in_kex (False):
+a channel that passes a timeout to the transport or asks whether keys are being exchanged is a matter for the verdict, not a
+harness error.
+
 Engine E4 (vlib.sched + vlib.chanbench: the real Channel on a fake transport, every lock operation, the
 transport's send point and optionally every source line of the send / receive paths of channel.py is
 a switch point; the interleaving is a generated preemption list, fully deterministic):
@@ -50,6 +67,7 @@ sum(adjusts incl. this one) <= bytes fed - bytes still in the two pipes (= what 
 """
 import socket
 import threading
+import time
 
 from hypothesis import strategies as st
 
@@ -74,7 +92,12 @@ RULE = (
     "lock and the transmit (two senders allotted the same window bytes). Channel numbering: snd: puppet's number for the channel from "
     "{77,0,1,2,2^32-1} (data naming another number = data without window); rcv: 1-3 channels open at once, puppet numbers equal / permuted / "
     "overlapping / disjoint w.r.t. the tested side's own 0,1,2, every step on one of the channels, grants booked per channel number named by the "
-    "WINDOW_ADJUST (a number the puppet has no channel under = nothing consumed there); E4: own number 1, peer's 7, same clauses"
+    "WINDOW_ADJUST (a number the puppet has no channel under = nothing consumed there); E4: own number 1, peer's 7, same clauses. "
+    "Round 4: snd x key exchange in progress while the senders run {none, started by tested side | puppet} x {racing, tested side's KEXINIT held 0.1/0.2 s "
+    "= longer than the 0.05 s channel timeout} (1/4 of the snd cases + a sub-family with an exchange in every case), adjust plan after the exchange "
+    "(classes snd:key-exchange-in-progress:*, snd:senders-busy-while-key-exchange-held); e4rcv 'tight' sub-family: window {32768,32769,40000} x 2-6 feeds "
+    "(data / ext 1 / ext 0,2; 3277..32768 bytes) fed first x 2-3 reader tasks (1-3 reads of 1..40000) x preemptions directed at the switch point where a "
+    "WINDOW_ADJUST is between channel and wire (classes e4rcv:preempted-while-adjust-in-flight, e4rcv:adjust-handed-over-while-another-adjust-is-in-flight)"
 )
 
 TO = 20.0
@@ -216,8 +239,53 @@ def run_snd(ctx, case):
                     return
 
         ths = [threading.Thread(target=worker, args=(ops,), daemon=True) for ops in threads_ops]
-        for t in ths:
-            t.start()
+        rk = case.get("rekey")
+        if rk:
+            # a key exchange is in progress while the senders run: started by the tested side or by the peer; with hold > 0 the
+            # peer is slow to take part (the tested side's KEXINIT stays on the link for that long, which outlasts the 0.05 s
+            # channel timeout of the "timeout" mode and of course the non-blocking mode), with hold == 0 the senders race it.
+            # The peer sends no WINDOW_ADJUST between its KEXINIT and NEWKEYS (RFC 4253 7.1), so the adjust plan starts after it.
+            out_d = env.link.ab if role == "client" else env.link.ba
+            classes.append("snd:key-exchange-in-progress:started-by-%s:%s" % (rk["who"], "held-beyond-the-channel-timeout" if rk["hold"] else "racing"))
+            kres = {}
+
+            def rekey():
+                try:
+                    (env.tested if rk["who"] == "tested" else env.puppet).renegotiate_keys()
+                    kres["ok"] = True
+                except Exception as e:
+                    kres["e"] = e
+
+            if rk["hold"]:
+                out_d.set_hold(True)
+            kth = threading.Thread(target=rekey, daemon=True)
+            kth.start()
+            try:
+                if rk["hold"]:
+                    # the tested side's KEXINIT (its own, or its answer to the peer's) is on the link: from now on it holds
+                    # user messages back
+                    if not out_d.wait_pending(1, TO):
+                        raise peers.core.HarnessError("C19 harness: no KEXINIT from the tested side")
+                for t in ths:
+                    t.start()
+                if rk["hold"]:
+                    time.sleep(rk["hold"])
+                    if any(t.is_alive() for t in ths):
+                        classes.append("snd:senders-busy-while-key-exchange-held")
+            finally:
+                out_d.set_hold(False)
+            kth.join(TO)
+            if "ok" not in kres:
+                # not this property (key exchange completion is C09-C13's business); nothing may outlive the case
+                chan.close()
+                for t in ths:
+                    t.join(TO)
+                ctx.inconc("snd:key-exchange-did-not-complete")
+                ctx.case(case, False, classes)
+                return
+        else:
+            for t in ths:
+                t.start()
         marks = []  # (log length before the adjust was sent, amount)
         for amount, when in case["adjusts"]:
             if when == "idle":
@@ -433,18 +501,31 @@ adjust = st.tuples(
     st.one_of(st.sampled_from([0, 1, 63, 64, 65, 4095, 4096, 32768, 0xFFFFFFFF]), st.integers(0, 5000), st.integers(0, 150000)),
     st.sampled_from(["idle", "idle", "now"]),
 )
-snd_case = st.fixed_dictionaries(
-    {
-        "fam": st.just("snd"),
-        "role": st.sampled_from(["client", "server"]),
-        "window": st.sampled_from(SIZES),
-        "maxpkt": st.sampled_from(SIZES),
-        "threads": st.lists(st.lists(send_op, min_size=1, max_size=5), min_size=1, max_size=4),
-        "adjusts": st.lists(adjust, max_size=8),
-        # the puppet's own number for the channel (the tested side's is 0: first channel of the session)
-        "pid": st.sampled_from(PEER_NUMBERS),
-    }
-)
+# a key exchange in progress while the senders run: who starts it, and for how long the peer leaves the tested side's KEXINIT
+# unanswered (0 = the senders race an exchange that runs at full speed; otherwise longer than the 0.05 s channel timeout of the
+# "timeout" mode)
+snd_rekey = st.fixed_dictionaries({"who": st.sampled_from(["tested", "puppet"]), "hold": st.sampled_from([0, 0.1, 0.1, 0.2])})
+
+
+def _snd_case(rekey):
+    return st.fixed_dictionaries(
+        {
+            "fam": st.just("snd"),
+            "role": st.sampled_from(["client", "server"]),
+            "window": st.sampled_from(SIZES),
+            "maxpkt": st.sampled_from(SIZES),
+            "threads": st.lists(st.lists(send_op, min_size=1, max_size=5), min_size=1, max_size=4),
+            "adjusts": st.lists(adjust, max_size=8),
+            # the puppet's own number for the channel (the tested side's is 0: first channel of the session)
+            "pid": st.sampled_from(PEER_NUMBERS),
+            # a key exchange in progress while the senders run (None: no exchange)
+            "rekey": rekey,
+        }
+    )
+
+
+snd_case = _snd_case(st.one_of(st.none(), st.none().map(lambda v: v), st.none().map(lambda v: v), snd_rekey))
+snd_rekey_case = _snd_case(snd_rekey)
 
 req_sizes_w = st.one_of(st.none(), st.sampled_from([0, 1, 32767, 32768, 32769, 40000, 65536, 100000, 2097152, 0xFFFFFFFF, 0x100000000, 1 << 40]))
 req_sizes_p = st.one_of(st.none(), st.sampled_from([0, 1, 4095, 4096, 4097, 32768, 65536, 0xFFFFFFFF, 0x100000000]))
@@ -504,12 +585,18 @@ def _after_reservation(tag):
     return tag[0] == "line" and tag[2] == "_send"
 
 
-def _bench(case, **chan_kw):
+def _adjust_in_flight(tag):
+    """The switch point at which a WINDOW_ADJUST of the tested side has been handed to the transport but is not on the wire yet
+    (as long as a key exchange or a slow socket holds user messages up)."""
+    return tag[0] == "send" and tag[1] == "WINDOW_ADJUST"
+
+
+def _bench(case, hot_pred=_after_reservation, **chan_kw):
     import paramiko.channel as PC
 
     tf = {PC.__file__: E4_TRACED} if case.get("trace") else None
-    # the directed ("hot") part of a schedule exists only in the tight e4snd cases
-    sch = S.Scheduler(S.strategy_from_case(case["sched"], _after_reservation), trace_files=tf, max_steps=60000)
+    # the directed ("hot") part of a schedule exists only in the tight cases (e4snd: after the reservation; e4rcv: adjust in flight)
+    sch = S.Scheduler(S.strategy_from_case(case["sched"], hot_pred), trace_files=tf, max_steps=60000)
     ft = CB.FakeTransport(sch)
     chan = CB.make_channel(sch, ft, chanid=E4_OWN_NUMBER, remote_chanid=E4_PEER_NUMBER, **chan_kw)
     return sch, ft, chan
@@ -582,13 +669,26 @@ def _buffered(chan):
 
 def run_e4rcv(ctx, case):
     W = case["window"]
-    sch, ft, chan = _bench(case, in_window=W, in_max_packet=32768)
-    st_ = {"fed": 0, "granted": 0, "bad": None, "adjusts": 0, "combine": set()}
+    sch, ft, chan = _bench(case, hot_pred=_adjust_in_flight, in_window=W, in_max_packet=32768)
+    st_ = {"fed": 0, "granted": 0, "bad": None, "adjusts": 0, "combine": set(), "inflight": 0}
     orig = ft._send_user_message
 
-    def send_user_message(m):
+    def send_user_message(m, *a, **kw):
         raw = m.asbytes()
-        if raw[0] == CB.MSG_CHANNEL_WINDOW_ADJUST and st_["bad"] is None:
+        if raw[0] == CB.MSG_CHANNEL_WINDOW_ADJUST:
+            if st_["inflight"]:
+                # another consumer (a second reader, or the transport task discarding an undelivered extended-data type)
+                # finished while an earlier WINDOW_ADJUST was still between the channel and the wire
+                st_["combine"].add("e4rcv:adjust-handed-over-while-another-adjust-is-in-flight")
+            st_["inflight"] += 1
+            try:
+                return _adjust(m, raw, a, kw)
+            finally:
+                st_["inflight"] -= 1
+        return orig(m, *a, **kw)
+
+    def _adjust(m, raw, a, kw):
+        if st_["bad"] is None:
             n = int.from_bytes(raw[5:9], "big")
             rcpt = int.from_bytes(raw[1:5], "big")
             st_["granted"] += n
@@ -598,7 +698,7 @@ def run_e4rcv(ctx, case):
                 st_["bad"] = ("e4:grant-names-a-number-the-peer-has-no-channel-under", "WINDOW_ADJUST(%d) by %s addressed to channel number %d; the peer's number for the channel is %d (own number %d)" % (n, sch.current_name(), rcpt, E4_PEER_NUMBER, E4_OWN_NUMBER))
             elif st_["granted"] > taken:
                 st_["bad"] = ("e4:apps=%d" % len(case["apps"]), "WINDOW_ADJUST(%d) by %s brings the granted total to %d; applications have taken %d bytes out of the pipes (fed %d)" % (n, sch.current_name(), st_["granted"], taken, st_["fed"]))
-        orig(m)
+        return orig(m, *a, **kw)
 
     ft._send_user_message = send_user_message
     data = bytes(range(256)) * 160
@@ -647,6 +747,8 @@ def run_e4rcv(ctx, case):
         if info.exc is not None:
             raise peers.core.HarnessError("C19 e4rcv: task %s raised %s" % (name, info.tb))
     classes = ["e4rcv", "e4rcv:apps=%d" % len(case["apps"]), "e4rcv:outcome=" + str(res.outcome)] + (["e4rcv:adjust-observed"] if st_["adjusts"] else []) + sorted(st_["combine"])
+    if res.switched_in(_adjust_in_flight):
+        classes.append("e4rcv:preempted-while-adjust-in-flight")
     ctx.case(case, st_["adjusts"] >= 1, classes)
     if st_["bad"]:
         ctx.violation("grant-at-most-consumed", st_["bad"][0], case, st_["bad"][1])
@@ -695,6 +797,23 @@ e4rcv_case = st.fixed_dictionaries(
         "trace": st.sampled_from([True, True, False]),
     }
 )
+# "tight" e4rcv cases: several consumers of ONE channel at the moment a WINDOW_ADJUST is in flight.  Everything the peer may send
+# is fed first (both streams, and extended-data types that are discarded on arrival: then the transport task is a consumer too),
+# 2-3 reader tasks take amounts at/above the grant threshold (window // 10, counted over both streams), and the preemptions are
+# directed (schedule part "hot") at the switch point where a WINDOW_ADJUST has left the channel but has not reached the wire -
+# a window that is microseconds wide on an idle link and as wide as you like during a key exchange or on a slow socket
+_tight_feed = st.tuples(st.sampled_from(["data", "ext", "data", "ext", "ext:2", "ext:0"]), st.sampled_from([3277, 4001, 4096, 8000, 32768]))
+_tight_read = st.tuples(st.sampled_from(["recv", "recv_stderr"]), st.sampled_from([1, 3276, 3277, 4001, 5000, 40000]))
+e4rcv_tight_case = st.fixed_dictionaries(
+    {
+        "fam": st.just("e4rcv"),
+        "window": st.sampled_from([32768, 32769, 40000]),
+        "feeds": st.lists(_tight_feed, min_size=2, max_size=6),
+        "apps": st.lists(st.lists(_tight_read, min_size=1, max_size=3), min_size=2, max_size=3),
+        "sched": S.schedule_strategy(max_pre=2, max_gap=30, max_forced=6, max_hot=3, hot_range=3),
+        "trace": st.sampled_from([True, False]),
+    }
+)
 
 
 def body(ctx, case):
@@ -704,12 +823,14 @@ def body(ctx, case):
 def run(ctx):
     ctx.set_budget(75, 800)
     ctx.assume("window/packet sizes are uint32 on the wire; transport-wide defaults are taken from the documented range (>= 32768 / >= 4096) because the server side advertises them unclamped")
-    ctx.explore(snd_case, lambda c: body(ctx, c), ctx.scale(100, 700), shrink=False)
+    ctx.explore(snd_case, lambda c: body(ctx, c), ctx.scale(80, 600), shrink=False)
+    ctx.explore(snd_rekey_case, lambda c: body(ctx, c), ctx.scale(40, 300), shrink=False, seed_offset=6)
     ctx.explore(rcv_case, lambda c: body(ctx, c), ctx.scale(140, 700), shrink=False, seed_offset=1)
     # E4: deterministic, so failing cases are shrunk
-    ctx.explore(e4snd_case, lambda c: body(ctx, c), ctx.scale(600, 6000), seed_offset=2)
-    ctx.explore(e4rcv_case, lambda c: body(ctx, c), ctx.scale(500, 4000), seed_offset=3)
+    ctx.explore(e4snd_case, lambda c: body(ctx, c), ctx.scale(500, 6000), seed_offset=2)
+    ctx.explore(e4rcv_case, lambda c: body(ctx, c), ctx.scale(420, 4000), seed_offset=3)
     ctx.explore(e4snd_tight_case, lambda c: body(ctx, c), ctx.scale(300, 3000), seed_offset=4)
+    ctx.explore(e4rcv_tight_case, lambda c: body(ctx, c), ctx.scale(250, 2500), seed_offset=5)
 
 
 def replay(ctx, case):
